@@ -235,8 +235,9 @@ def is_heavy(a):
     build long witnesses)?  Such assumptions are left out of *feasibility* queries only, which makes those
     queries over-approximate (more paths kept) and therefore stays sound; obligations always use the full pc."""
     k = a.get_id()
-    if k in _heavy_cache:
-        return _heavy_cache[k]
+    hit = _heavy_cache.get(k)
+    if hit is not None and hit[0].eq(a):      # the term is kept alive in the cache, so ids cannot be recycled
+        return hit[1]
     heavy = False
     stack = [a]
     seen = set()
@@ -252,7 +253,7 @@ def is_heavy(a):
             stack.extend(t.children())
         elif z3.is_quantifier(t):
             stack.append(t.body())
-    _heavy_cache[k] = heavy
+    _heavy_cache[k] = (a, heavy)
     return heavy
 
 
